@@ -773,6 +773,81 @@ def judge_o_composite(inp, obs, lr):
     return None
 
 
+# ---- polygons: circle parameters of a polygon are those of its edge segments, and describe the edges ---------------
+def gen_o_polygon(rng, n):
+    for _ in range(n):
+        nv = rng.randint(3, 7)
+        shape = rng.choice([[], [], [2], [3]])
+        cnt = int(np.prod(shape)) if shape else 1
+        polys = []
+        for _ in range(cnt):
+            if rng.random() < 0.3:
+                # regular polygon moved by an isometry
+                polys.append({"regular": True, "angle": rng.uniform(0.1, 0.9) * (nv - 2) * math.pi / nv, "g": G.float_iso(rng, 2).tolist()})
+            else:
+                # star-shaped polygon: vertices at increasing angles around a centre
+                ctr = np.array(G.fball(rng, 2, 0.4))
+                angs = sorted(rng.uniform(0, 2 * math.pi) for _ in range(nv))
+                while min(np.diff(angs + [angs[0] + 2 * math.pi])) < 0.25:
+                    angs = sorted(rng.uniform(0, 2 * math.pi) for _ in range(nv))
+                polys.append({"regular": False, "klein": [(ctr + rng.uniform(0.15, 0.5) * np.array([math.cos(a), math.sin(a)])).tolist() for a in angs]})
+        yield {"nv": nv, "shape": shape, "polys": polys, "model": rng.choice(["poincare", "halfspace"]),
+               "degrees": rng.random() < 0.5, "flatten": rng.random() < 0.4}
+
+
+def run_o_polygon(inp):
+    nv, shape = inp["nv"], tuple(inp["shape"])
+    data = []
+    for pdesc in inp["polys"]:
+        if pdesc["regular"]:
+            P = H.Polygon.regular_polygon(nv, angle=pdesc["angle"])
+            data.append(np.array((H.Isometry(np.array(pdesc["g"])) @ P.get_vertices()).proj_data, dtype=float))
+        else:
+            data.append(np.array(H.Point(np.array(pdesc["klein"]), model="klein").proj_data, dtype=float))
+    V = np.array(data).reshape(shape + (nv, 3))
+    poly = H.Polygon(V.copy())
+    model = inp["model"]
+    c, r, th = poly.circle_parameters(degrees=inp["degrees"], model=model, flatten=inp["flatten"])
+    ce, re_, the = H.Polygon(V.copy()).get_edges().circle_parameters(degrees=inp["degrees"], model=model)
+    c, r, th = np.array(c, dtype=float), np.array(r, dtype=float), np.array(th, dtype=float)
+    want_shape = ((int(np.prod(shape)) if shape else 1) * nv,) if inp["flatten"] else shape + (nv,)
+    out = {"shape_ok": list(r.shape) == list(want_shape), "shapes": [list(c.shape), list(r.shape), list(th.shape)]}
+    if not out["shape_ok"]:
+        return out
+    c, r, th = c.reshape((-1, 2)), r.reshape(-1), th.reshape((-1, 2)) * (math.pi / 180 if inp["degrees"] else 1.0)
+    out["edges_same"] = float(max(np.abs(c - np.array(ce, dtype=float).reshape((-1, 2))).max(), np.abs(r - np.array(re_, dtype=float).reshape(-1)).max()))
+    Vf = V.reshape((-1, nv, 3))
+    worst = {"ends": 0.0, "inside": -1.0, "on_segment": 0.0, "rmax": float(np.max(r))}
+    j = 0
+    for poly_v in Vf:
+        for i in range(nv):
+            A, B = H.Point(poly_v[i].copy()), H.Point(poly_v[(i + 1) % nv].copy())
+            e = np.array([np.array(A.coords(model), dtype=float), np.array(B.coords(model), dtype=float)])
+            pts, extent = _arc_points(c[j], float(r[j]), th[j])
+            scale = (1 + r[j]) * (1 + np.abs(c[j]).max())
+            worst["ends"] = max(worst["ends"], float(np.max(np.abs(np.array(sorted([pts[0].tolist(), pts[-1].tolist()])) - np.array(sorted(e.tolist()))))) / scale)
+            ins = (max(np.linalg.norm(q) for q in pts) - 1) if model == "poincare" else -min(q[1] for q in pts)
+            worst["inside"] = max(worst["inside"], float(ins) / scale)
+            tot = _d(A, B)
+            worst["on_segment"] = max(worst["on_segment"], max(abs(_d(A, H.Point(q, model=model)) + _d(H.Point(q, model=model), B) - tot) for q in pts[1:-1]) / (scale * (1 + tot)))
+            j += 1
+    out.update(worst)
+    return out
+
+
+def judge_o_polygon(inp, obs, lr):
+    tags = {"nv": inp["nv"], "model": inp["model"], "flatten": inp["flatten"], "composite": bool(inp["shape"]), "call_site": "Polygon.circle_parameters"}
+    if "exc" in obs:
+        return {"expected": "circle parameters of the edges", "observed": obs, "tags": dict(tags, exc=obs["exc"])}
+    if not obs["shape_ok"]:
+        return {"expected": "one circle per edge (flattened to one axis when flatten=True)", "observed": obs["shapes"], "tags": dict(tags, what="shape")}
+    if not obs["edges_same"] <= 1e-9:
+        return {"expected": "polygon circle parameters = those of its edge segments", "observed": obs["edges_same"], "tags": dict(tags, what="edges")}
+    if not (obs["ends"] <= 1e-5 and obs["inside"] <= 1e-5 and obs["on_segment"] <= 1e-5):
+        return {"expected": "every edge: arc between consecutive vertices, inside the model, on the hyperbolic segment", "observed": obs, "tags": dict(tags, what="arc")}
+    return None
+
+
 CLAUSES = [
     Clause("ideal_corr", "corr", gen_ideal, run_ideal, judge_ideal, lean=lean_ideal, site="hyperbolic.Segment._compute_aux_data",
            budget={"quick": 120, "thorough": 3000}, what="Segment ideal endpoints vs Lean segmentIdeal over Q (dims 2-4, Klein-normalised and rescaled representatives)"),
@@ -791,6 +866,10 @@ CLAUSES = [
            budget={"quick": 120, "thorough": 4000},
            what="array-valued segments and geodesics (2-8 units, shapes rank 1-2, dims 2-4, both models, degrees/radians), many units whose arc crosses "
                 "angle 0 seen from the circle centre: every unit's sphere and angle pair must describe that unit"),
+    Clause("polygon_oracle", "oracle", gen_o_polygon, run_o_polygon, judge_o_polygon, site="hyperbolic.Polygon.circle_parameters",
+           budget={"quick": 80, "thorough": 2500},
+           what="Polygon.circle_parameters (single and composite polygons, 3-7 vertices, both models, degrees/radians, flatten on/off): same as the edge "
+                "segments' parameters, and every edge's arc joins consecutive vertices inside the model along the hyperbolic segment"),
     Clause("horosphere_oracle", "oracle", gen_o_horo, run_o_horo, judge_o_horo, site="hyperbolic.Horosphere.sphere_parameters",
            budget={"quick": 150, "thorough": 5000}, what="horosphere sphere through the reference point, tangent at the centre (dims 2-4, both models); HorosphereArc angles (dim 2)"),
     Clause("subspace_oracle", "oracle", gen_o_subspace, run_o_subspace, judge_o_subspace, site="hyperbolic.Subspace.sphere_parameters",
